@@ -126,6 +126,21 @@ Proof.
       * now destruct (cmp3 CGe x l).
 Qed.
 
+(* ------------------------------------------------------------------ equality as two inequalities *)
+Lemma cmp3_eq_range : forall x y, cmp3 CEq x y = opt_tv_and (cmp3 CLe x y) (cmp3 CGe x y).
+Proof.
+  intros x y. unfold cmp3. destruct (cmp_values x y) as [[c|]|]; try reflexivity. now destruct c.
+Qed.
+Theorem eq_range_sem3 : forall e r, sem3 (eq_range e) r = sem3 e r.
+Proof.
+  induction e; intros r; cbn [eq_range]; try reflexivity.
+  - destruct op; try reflexivity. rewrite sem3_and, !sem3_cmp.
+    destruct (eval e1 r) as [x|], (eval e2 r) as [y|]; try reflexivity. symmetry. apply cmp3_eq_range.
+  - now rewrite !sem3_and, IHe1, IHe2.
+  - now rewrite !sem3_or, IHe1, IHe2.
+  - now rewrite !sem3_not, IHe.
+Qed.
+
 (* ------------------------------------------------------------------ renumbering columns *)
 Theorem remap_eval : forall f e r r',
   (forall i, nth_error r' (f i) = nth_error r i) -> eval (remap f e) r' = eval e r.
